@@ -97,7 +97,12 @@
    handles, synchronous value() calls, Let: stree and beyond), and termination when the guard does fire;
    never-started for never-awaited tasks; no-step-after-done for programs outside stree (stored handles,
    value() on existing futures) without the guard hypothesis, and after a computation that was cut off by the
-   fuel or by the runaway guard. *)
+   fuel or by the runaway guard.
+   WITHOUT THE HYPOTHESIS no_unwind FOR stree PROGRAMS (end of the file; proofs/MachineGuardFormsS.v): the stree
+   theorems whose hypothesis is no_unwind P n (start h s1) are restated with "the MAX_TASK_STACK_SIZE guard has not
+   fired before step n" in its place (MachineNoUnwind.stree_no_unwind_iff_guard_silent):
+   C03_resumed_only_when_everything_awaited_is_done_stree_guard, C03_stree_resumes_are_guarded_guard,
+   C03_no_step_after_done_stree_guard. *)
 From Asynq Require Import Machine Seq proofs.ProgProofs proofs.MachineC08 proofs.MachineC01 proofs.MachineC02
   proofs.MachineSteps.
 
@@ -596,3 +601,35 @@ Theorem C03_nf_demos :
   (top_next (c_st (run P 36 (start (fst (create [] (FTask c03t_demo) (st0 P))) (snd (create [] (FTask c03t_demo) (st0 P)))))) = Z.of_nat (1 + nf c03t_demo)).
 Proof. exact nf_demos. Qed.
 Print Assumptions C03_nf_demos.
+
+(* ==== the stree theorems WITHOUT an assumption about exceptions unwinding (proofs/MachineNoUnwind.v, MachineGuardFormsS.v) ====
+   [no_unwind P n (start h s1)] is replaced by "the MAX_TASK_STACK_SIZE guard has not fired before step n"; also with
+   synchronous calls FutureIsAlreadyComputed is proved unreachable (stree_no_unwind_iff_guard_silent), so the guard's
+   RuntimeError is the only exception that can unwind through asynq's frames.  Binders and conclusions are those of
+   the theorems of the same name without the suffix _guard. *)
+From Asynq Require Import proofs.MachineNoUnwind proofs.MachineGuardFormsS.
+Theorem C03_resumed_only_when_everything_awaited_is_done_stree_guard : forall P, pointwise P -> forall p, stree p -> forall n t,
+  let h := fst (create [] (FTask p) (st0 P)) in
+  let s1 := snd (create [] (FTask p) (st0 P)) in
+  (forall k, (k < n)%nat -> guard_fires P (run P k (start h s1)) = false) ->
+  c_mode (run P n (start h s1)) = MResume t ->
+  exists tk, get t (c_st (run P n (start h s1))) = Some (mkFut None (KTask tk)) /\
+    forall x, In (RFut x) (leaves (tk_last tk)) -> computed x (c_st (run P n (start h s1))) = true.
+Proof. exact resume_guard_stree_guard. Qed.
+Print Assumptions C03_resumed_only_when_everything_awaited_is_done_stree_guard.
+
+Theorem C03_stree_resumes_are_guarded_guard : forall P p n,
+  pointwise P -> stree p ->
+  (forall k, (k < n)%nat -> guard_fires P (run P k
+     (start (fst (create [] (FTask p) (st0 P))) (snd (create [] (FTask p) (st0 P))))) = false) ->
+  resume_guarded P n (start (fst (create [] (FTask p) (st0 P))) (snd (create [] (FTask p) (st0 P)))).
+Proof. exact stree_resume_guarded_guard. Qed.
+Print Assumptions C03_stree_resumes_are_guarded_guard.
+
+Theorem C03_no_step_after_done_stree_guard : forall P p n,
+  pointwise P -> stree p ->
+  (forall k, (k < n)%nat -> guard_fires P (run P k
+     (start (fst (create [] (FTask p) (st0 P))) (snd (create [] (FTask p) (st0 P))))) = false) ->
+  forall t i o l1 l2, snd (run_case P n [p]) = l1 ++ EvStep t i o :: l2 -> forall o', ~ In (EvDone t o') l1.
+Proof. exact stree_no_step_after_done_guard. Qed.
+Print Assumptions C03_no_step_after_done_stree_guard.
